@@ -66,7 +66,7 @@ def shrink_case(case, pred):
 
 
 def correspond(ctx, prop):
-    n = ctx.budget(120, 4000)
+    n = ctx.budget(400, 6000)
     maxn = ctx.budget(8, 14)
     runs = []
     salt = {"C01": 11, "C02": 22, "C03": 33, "C04": 44}[prop]
@@ -83,8 +83,18 @@ def correspond(ctx, prop):
         spec = S.gen_job(rng, maxn)
         ws = S.gen_cluster(rng, spec, ctx.budget(3, 4), ctx.budget(3, 4))
         cases.append({"spec": spec, "workers": ws, "seed": seed, "fifo": i % 2 == 0})
-    for c in cases:
+    for ci, c in enumerate(cases):
         res = S.run_case(c["spec"], c["workers"], c["seed"], c["fifo"], none_output=c.get("none_output"))
+        if ci < len(corpus) and not any(p == prop for (p, _, _) in S.oracle(res, c["fifo"])):
+            # a corpus witness depends on the scheduler's set-iteration order (PYTHONHASHSEED follows VERIF_SEED):
+            # look for a schedule seed under which this job/cluster reproduces its finding
+            for extra in range(1, 60):
+                r2 = S.run_case(c["spec"], c["workers"], c["seed"] + extra, c["fifo"], none_output=c.get("none_output"))
+                if any(p == prop for (p, _, _) in S.oracle(r2, c["fifo"])):
+                    c = dict(c, seed=c["seed"] + extra)
+                    cases[ci] = c
+                    res = r2
+                    break
         runs.append(res)
         st = res["stats"]
         nontrivial = st["transmits"] + st["fetches"] + st["purges"] > 0
@@ -104,7 +114,7 @@ def correspond(ctx, prop):
             sig = {"kind": kind, "adversary": "fifo" if c["fifo"] else "anyOrder"}
             if prop == "C03" and not c["fifo"] and kind in ("finished-with-tasks-unrun", "livelock-or-unbounded-rounds", "requested-output-not-fetched"):
                 sig["cause"] = "last-output-notice-overtook-earlier" if last_overtook(res["trace"]) else "other"
-            if prop == "C01" and not c["fifo"] and kind == "requested-output-not-delivered":
+            if prop == "C01" and not c["fifo"] and kind in ("requested-output-not-delivered", "run-did-not-return-requested-outputs"):
                 sig["cause"] = "last-output-notice-overtook-earlier" if last_overtook(res["trace"]) else "other"
             if c.get("none_output") is not None:
                 # a requested output whose VALUE is None (replay of a known finding): only this cause is tagged
